@@ -298,6 +298,26 @@ MUTANTS = [
                                       config['files']['bad-chars-sub']),
                                      {'jobname':document.userdata.get('jobname', '')}, self.fileExtension,
                                      invalid=dict((f, None) for f in os.listdir('.') if f.startswith('sect')))"""),
+    # ---------------- reverted repairs of the continuation session
+    ('C13', 'text-table-shrink-stale-index', 'plasTeX/Renderers/Text/__init__.py',
+     """                maxwidths[index] -= 1
+                outwidths[index] -= 1
+                if maxwidths[index] == minwidths[index]:
+                    maxwidths[index] = -1""",
+     """                maxwidths[i] -= 1
+                outwidths[i] -= 1
+                if maxwidths[i] == minwidths[i]:
+                    maxwidths[i] = -1"""),
+    ('C17', 'natbib-aliases-back-on-class', 'plasTeX/Packages/natbib.py',
+     """        aliases = doc.userdata.getPath('bibliography/citealiases', {})
+        aliases[self.attributes['key']] = self.attributes['text']""",
+     """        aliases = defcitealias.__dict__.get('_shared') or {}
+        type.__setattr__(defcitealias, '_shared', aliases)
+        doc.userdata.setPath('bibliography/citealiases', aliases)
+        aliases[self.attributes['key']] = self.attributes['text']"""),
+    ('C17', 'natbib-sectionbib-back-on-class', 'plasTeX/Packages/natbib.py',
+     """            bibunit['level'] = Base.section.level""",
+     """            Base.bibliography.level = bibunit['level'] = Base.section.level"""),
 ]
 
 # a helper that the 'list-depth-back-on-class' mutant needs (module-level dict shared by all documents)
